@@ -7,5 +7,5 @@ Init == k = 1
 Next == k < N /\ k' = k + 1
 \* the expectation is recomputed from the segment ids, not taken from the record
 Chk == LET r == Recs[k] e == Expected(r.segs) IN
-       (r.obs.lit = e /\ r.obs.var = e) \/ PrintT(<<"MISMATCH", k>>)
+       (r.obs.lit = e /\ r.obs.var = e /\ r.obs.arith = e) \/ PrintT(<<"MISMATCH", k>>)
 =============================================================================
